@@ -1,8 +1,8 @@
 SPECIFICATION Spec
 CONSTANTS
   OptToks <- Opt_All
-  MaxOpts = 3
-  MinOpts = 0
+  MaxOpts = 9
+  MinOpts = 5
   Ops <- AllOps
   Dev <- AsBuilt
 INVARIANTS Idempotent NilIsNeutral FamiliesAgree OptionsMeanWhatTheySay
